@@ -41,6 +41,18 @@ CyclesStable(cyc, from) ==
         /\ cyc[k].w_ok /\ cyc[k].r.ok
         /\ k > from => (cyc[k].w = cyc[k - 1].w /\ SameParas(cyc[k].r.paras, cyc[k - 1].r.paras))
 
+\* (a value that begins with an empty line and has more lines comes back without that ONE line - KF-C08-1 - and with nothing else changed)
+DropsLeadingEmpty(p, q) ==
+    /\ p.order = q.order
+    /\ \A k \in 1..Len(p.order) :
+          HasVal(p, p.order[k]) /\ HasVal(q, p.order[k]) /\
+          LET a == ValueLines(ValOf(p, p.order[k]))
+              b == ValueLines(ValOf(q, p.order[k]))
+          IN a = b \/ (Len(a) > 1 /\ a[1] = <<>> /\ b = From(a, 2))
+OnlyDropsLeadingEmpty(ps, qs) ==
+    Len(ps) = Len(qs) /\ \A k \in 1..Len(ps) : DropsLeadingEmpty(ps[k], qs[k])
+
+
 JudgeWrite(rec) ==
     LET ps == rec.in.paras
         rep == \A k \in 1..Len(ps) : Representable(ps[k])
@@ -57,11 +69,11 @@ JudgeWrite(rec) ==
             "written paragraph does not read back as one paragraph">>,
           <<\A k \in 1..Len(ps) : ps[k].order # <<>> =>
                 (rec.singles[k].r.paras[1].order = ps[k].order /\
-                 (LeadingEmpty(ps[k]) \/ SameContent(rec.singles[k].r.paras[1], ps[k]))),
+                 (IF LeadingEmpty(ps[k]) THEN DropsLeadingEmpty(ps[k], rec.singles[k].r.paras[1]) ELSE SameContent(rec.singles[k].r.paras[1], ps[k]))),
             "written paragraph reads back with different content">>,
           <<Len(cyc) >= 1 /\ cyc[1].w_ok /\ cyc[1].r.ok /\ Len(cyc[1].r.paras) = Len(ne),
             "paragraphs written through one Encoder read back as a different number of paragraphs">>,
-          <<lead \/ SameParas(cyc[1].r.paras, ne), "encoder output reads back with different content">>,
+          <<IF lead THEN OnlyDropsLeadingEmpty(ne, cyc[1].r.paras) ELSE SameParas(cyc[1].r.paras, ne), "encoder output reads back with different content">>,
           <<lead \/ (Len(cyc) = 3 /\ CyclesStable(cyc, IF Len(ne) = Len(ps) THEN 1 ELSE 2)), "a write/read cycle changed the document">> >>)
 
 \* ---- C08: read-write-read on reader output ----------------------------------
@@ -69,16 +81,6 @@ JudgeWrite(rec) ==
 \* first line is empty and which has further lines ("F:\n .\n x" reads as "\nx\n")
 \* is written as "F: \n x" and read back without that empty line, because the
 \* reader elides an empty first line (TestLineWrapping pins this).
-DropsLeadingEmpty(p, q) ==
-    /\ p.order = q.order
-    /\ \A k \in 1..Len(p.order) :
-          HasVal(p, p.order[k]) /\ HasVal(q, p.order[k]) /\
-          LET a == ValueLines(ValOf(p, p.order[k]))
-              b == ValueLines(ValOf(q, p.order[k]))
-          IN a = b \/ (Len(a) > 1 /\ a[1] = <<>> /\ b = From(a, 2))
-OnlyDropsLeadingEmpty(ps, qs) ==
-    Len(ps) = Len(qs) /\ \A k \in 1..Len(ps) : DropsLeadingEmpty(ps[k], qs[k])
-
 HashName(ps) == \E k \in 1..Len(ps) : \E j \in 1..Len(ps[k].order) :
                     ps[k].order[j] # <<>> /\ ps[k].order[j][1] = HASH
 
@@ -115,7 +117,9 @@ JudgeEncStructs(rec) ==
     LET vs == rec.in.values
         r == RefRead(rec.w)
         nName == <<78, 97, 109, 101>>  nComment == <<67, 111, 109, 109, 101, 110, 116>>
+        nNotes == <<78, 111, 116, 101, 115>>
         Want(v) == <<[name |-> nName, lines |-> <<v.Name>>]>> \o (IF v.Comment = <<>> THEN <<>> ELSE <<[name |-> nComment, lines |-> <<v.Comment>>]>>)
+                   \o (IF v.Notes = <<>> \/ HasField(rec.in, "dup") THEN <<>> ELSE <<[name |-> nNotes, lines |-> <<<<>>>> \o Split(v.Notes, LF)]>>)
     IN Guarded("encoder-structs",
        << <<~rec.panic, "panic">>, <<rec.ok, "Encode failed on a supported struct">>, <<r.wf, "the Encoder's output is not a well-formed document">> >>,
        << <<Len(r.paras) = Len(vs), "n structs written through the Encoder do not read back as n paragraphs">>,
